@@ -1,4 +1,8 @@
 """C12 — each peer sequence number is accepted at most once and only in order."""
+import os
+import sys
+
+sys.path.insert(0, os.path.join(os.path.dirname(os.path.abspath(__file__)), "..", "lib", "mirsym"))
 import kanicheck
 from common import Outcome, log
 
@@ -17,8 +21,14 @@ THOROUGH.update({
 
 
 def run(tier):
-    out = Outcome("C12", tier)
-    out.functions = [
+    import c12_async
+    import harness
+
+    ck = harness.MirCheck("C12", tier)
+    c12_async.register_all(ck, tier)
+    ck.run_queries()
+    out = ck.out
+    kani_functions = [
         "MonotonicCounterSystem::validate_sequence_internal",
         "PeerCounter::has_seen_sequence (+ its closure)",
         "PeerCounter::apply_sequence_update",
@@ -52,8 +62,14 @@ def run(tier):
          "input": "(seq, hash, ts) symbolic", "asserts": ["Valid => seq==L+1 && ts in [now-3600, now+60]", "seq==L+1 && in window => Valid",
                                                              "Replay => seq<=L", "Gap{e,r} => seq>L+1, e==L+1, r==seq", "after apply: L'=L+1, I(L') holds, seq and every number <= seq no longer Valid"]},
     ]
-    return out.finish(level="proof", checker_cmd="./check C12 --tier " + tier)
+    out.bounds.append("engine M: the whole async fn MonotonicCounterSystem::validate_sequence (state machine polled in place, uncontended locks) over an ARBITRARY counter map "
+                      "(SMT arrays over 256-bit user ids, stored history capacity 2), arbitrary user / sequence / hash, all wall-clock readings of the call in one second")
+    out.outside.append("batch_update is covered by induction from the step obligations (same validate-then-apply code under one write guard); its loop is not separately encoded")
+    return ck.finish("./check C12 --tier " + tier)
 
 
 def replay(path):
-    return kanicheck.replay_file(path)
+    import c12_async
+    import harness
+
+    return harness.replay_file(path, c12_async.rebuild)
